@@ -244,10 +244,13 @@ func Worker(kind string, thIdx int, n int) {
 			At("worker."+kind, strconv.Itoa(thIdx)+"/"+strconv.Itoa(n))
 		}
 	}
+	h := atomic.AddUint64(&workerHit, 1)
+	if cb, _ := callback.Load().(func(string, int64)); cb != nil {
+		cb("worker."+kind, int64(h))
+	}
 	if atomic.LoadInt32(&jitterOn) == 0 {
 		return
 	}
-	h := atomic.AddUint64(&workerHit, 1)
 	r := mix(jitterSeed ^ mix(uint64(thIdx)+uint64(len(kind))<<8) ^ mix(h))
 	switch r % 4 {
 	case 0:
